@@ -48,7 +48,8 @@ def fam_fixed_all(rng, tier):
 
 def fam_v9(rng, tier):
     return gen.fam_stream(rng, n(tier, 200, 2000), versions=(9,), calls=(1, 5)) + gen.fam_redefine(rng, n(tier, 40, 300)) + \
-        gen.fam_stream(rng, n(tier, 200, 2000), versions=(9,), calls=(1, 5), lossless=True)
+        gen.fam_stream(rng, n(tier, 200, 2000), versions=(9,), calls=(1, 5), lossless=True) + \
+        gen.fam_stream(rng, n(tier, 100, 800), versions=(9,), calls=(1, 4), lossless=True, wild=True)
 
 
 def fam_ipfix(rng, tier):
@@ -94,16 +95,16 @@ PROPS = {
     "C03": {"oracle": "C03", "view": ["outcome", "pkts"], "families": fam_fixed_all, "mutate_per": {"quick": 2, "thorough": 4},
             "also": ["C03spec"],
             "rule": "V5/V7 packets with all counts incl. 0, boundary field values, every protocol number 0..255, every truncation/mutation class; oracle = Cisco offsets + IANA names"},
-    "C04": {"oracle": "C04", "view": ["outcome", "pkts", "state"], "families": fam_v9, "rule": STREAM_RULE + " (V9 only)"},
-    "C05": {"oracle": "C05", "view": ["outcome", "pkts", "state"], "families": fam_ipfix, "rule": STREAM_RULE + " (IPFIX only)"},
+    "C04": {"mutate_per": {"quick": 1, "thorough": 2}, "oracle": "C04", "view": ["outcome", "pkts", "state"], "families": fam_v9, "rule": STREAM_RULE + " (V9 only)"},
+    "C05": {"mutate_per": {"quick": 1, "thorough": 2}, "oracle": "C05", "view": ["outcome", "pkts", "state"], "families": fam_ipfix, "rule": STREAM_RULE + " (IPFIX only)"},
     "C06": {"oracle": "C06", "view": ["outcome", "pkts", "state"], "families": fam_cache,
             "rule": "interleaved histories on several parser instances with colliding template ids, redefinitions, V5/V7 and disallowed-version frames, chained vs split delivery"},
     "C07": {"oracle": "C07", "view": ["outcome", "pkts", "state"], "families": fam_c07,
             "rule": "data sets for a template id unknown to this parser/protocol (defined for the other protocol on this parser and for the same protocol on another parser), alone or after other packets, then followed by the template and the same data"},
     "C08": {"oracle": "C08", "view": ["outcome", "pkts", "exports"], "families": fam_fixed_all, "mutate_per": {"quick": 1, "thorough": 2},
             "rule": "V5/V7 packets, all counts, boundary values; re-export compared with the bytes each packet occupied"},
-    "C09": {"oracle": "C09", "view": ["outcome", "pkts", "exports"], "families": fam_v9, "rule": STREAM_RULE + " (V9 only); re-export compared with the bytes each packet occupied"},
-    "C10": {"oracle": "C10", "view": ["outcome", "pkts", "exports"], "families": fam_ipfix, "rule": STREAM_RULE + " (IPFIX only); re-export compared with the message bytes"},
+    "C09": {"mutate_per": {"quick": 1, "thorough": 2}, "oracle": "C09", "view": ["outcome", "pkts", "exports"], "families": fam_v9, "rule": STREAM_RULE + " (V9 only); re-export compared with the bytes each packet occupied"},
+    "C10": {"mutate_per": {"quick": 1, "thorough": 2}, "oracle": "C10", "view": ["outcome", "pkts", "exports"], "families": fam_ipfix, "rule": STREAM_RULE + " (IPFIX only); re-export compared with the message bytes"},
     "C11": {"oracle": "C11", "view": ["outcome", "pkts", "state"], "families": fam_c11,
             "rule": "sequences of 2-6 self-delimiting packets of all four versions (early packets defining templates later ones need): joined, one per call, random partitions (thorough: all 2^(n-1) partitions for n<=7)"},
     "C12": {"oracle": "C12", "view": ["outcome", "pkts", "state"], "families": fam_c12,
